@@ -2,6 +2,7 @@ package checks
 
 import (
 	"fmt"
+	"go/token"
 	"go/types"
 	"sort"
 	"strings"
@@ -109,6 +110,75 @@ func runC13(c *Ctx) {
 	if nClose < 4 {
 		R.Fatal("only %d closes of connection channels found (anchor: connection.stop closes five)", nClose)
 	}
+	// ---- no goroutine blocks on a channel that only it drains
+	{
+		R.Rules["E5.self-send"] = "no goroutine role performs a plain (blocking) send on a connection channel whose only receiver is that same role: once the buffer is full - other goroutines may fill it - the role waits for itself and every caller it serves hangs"
+		recvRoles := map[string]map[string]bool{}
+		for _, fn := range c.RepoFuncs("service") {
+			for _, b := range fn.Blocks {
+				for _, ins := range b.Instrs {
+					var ch ssa.Value
+					switch x := ins.(type) {
+					case *ssa.UnOp:
+						if x.Op == token.ARROW {
+							ch = x.X
+						}
+					case *ssa.Select:
+						for _, stt := range x.States {
+							if stt.Dir == types.RecvOnly {
+								if owner, f, ok := fieldLoad(stt.Chan); ok && (owner == "connection" || owner == "session") {
+									if recvRoles[f] == nil {
+										recvRoles[f] = map[string]bool{}
+									}
+									for _, r := range rolesOf(ri, fn) {
+										recvRoles[f][r] = true
+									}
+								}
+							}
+						}
+					case *ssa.Range:
+						if _, isChan := x.X.Type().Underlying().(*types.Chan); isChan {
+							ch = x.X
+						}
+					}
+					if ch != nil {
+						if owner, f, ok := fieldLoad(ch); ok && (owner == "connection" || owner == "session") {
+							if recvRoles[f] == nil {
+								recvRoles[f] = map[string]bool{}
+							}
+							for _, r := range rolesOf(ri, fn) {
+								recvRoles[f][r] = true
+							}
+						}
+					}
+				}
+			}
+		}
+		n := 0
+		for _, f := range sortedKeysOf(sends) {
+			for _, sd := range sends[f] {
+				if _, plain := sd.ins.(*ssa.Send); !plain {
+					continue
+				}
+				n++
+				rr := recvRoles[f]
+				self := len(rr) > 0
+				for _, r := range sd.role {
+					if !rr[r] || len(rr) != 1 {
+						self = false
+					}
+				}
+				st, d := report.Discharged, ""
+				if self && len(sd.role) > 0 {
+					st, d = report.Violated, fmt.Sprintf("role %v sends on %s at %s, and only that role receives from it: when the buffer is full the goroutine blocks on itself for ever (all SendActiveMessage callers of the connection hang)", sd.role, f, c.P.RelPos(sd.ins.Pos()))
+				}
+				R.Add("E5.self-send", fmt.Sprintf("connection.%s / send in %s / %s", f, shortFn(sd.fn), c.constructOf(sd.fn, sd.ins)), c.P.RelPos(sd.ins.Pos()), st, d)
+			}
+		}
+		if n < 2 {
+			R.Fatal("only %d plain sends on connection channels found (anchor)", n)
+		}
+	}
 	// ---- writer exit
 	writeFn := c.P.Method("service", "connection", "write")
 	if writeFn == nil {
@@ -209,6 +279,15 @@ func runC13(c *Ctx) {
 		}
 		R.Add("E5.exit", "connection.write / queued commands are drained and answered when the writer stops", c.P.RelPos(writeFn.Pos()), st, d)
 	}
+	{
+		R.Rules["S.complete"] = "every delivery to the reply channel of a recorded request is followed by deleting the record: a stale record is answered again when the writer stops, on a channel its caller has already closed (send on closed channel takes the process down)"
+		n, okDel, bad := c.replyThenDelete()
+		st, d := report.Discharged, ""
+		if !okDel || len(bad) > 0 {
+			st, d = report.Violated, fmt.Sprintf("the reply delivered at %v is not followed by deleting the outstanding record (%d reply deliveries examined)", bad, n)
+		}
+		R.Add("S.complete", "service / reply delivery is followed by deleting the record", "", st, d)
+	}
 	c.timeoutRule()
 	R.Require("E5.close", 3, "")
 	R.Require("E5.exit", 2, "")
@@ -288,4 +367,14 @@ func (c *Ctx) timeoutRule() {
 		}
 		R.Add("E5.timeout", "connection.onActiveEvent / a timeout goroutine is started for every duration >= 0", c.P.RelPos(onActive.Pos()), st, d)
 	}
+}
+
+
+func sortedKeysOf[T any](m map[string]T) []string {
+	out := make([]string, 0, len(m))
+	for k := range m {
+		out = append(out, k)
+	}
+	sort.Strings(out)
+	return out
 }
